@@ -59,6 +59,7 @@ impl Kind {
 }
 
 pub fn kernel<T: Sc>(kind: Kind, x: &DVector<T>, a: &[T]) -> DVector<T> {
+    crate::common::HEARTBEAT.fetch_add(1, std::sync::atomic::Ordering::Relaxed);
     let one = T::of(1.0);
     let two = T::of(2.0);
     match kind {
@@ -80,6 +81,7 @@ pub fn kernel<T: Sc>(kind: Kind, x: &DVector<T>, a: &[T]) -> DVector<T> {
 
 /// derivative of the kernel with respect to its `w`-th own argument
 pub fn dkernel<T: Sc>(kind: Kind, w: usize, x: &DVector<T>, a: &[T]) -> DVector<T> {
+    crate::common::HEARTBEAT.fetch_add(1, std::sync::atomic::Ordering::Relaxed);
     let one = T::of(1.0);
     let two = T::of(2.0);
     match (kind, w) {
